@@ -3,7 +3,8 @@
 ParseClasses.tla enumerates the classes of valid parses the block encoder distinguishes (sequence-count form and its
 boundaries 127/128, 32511/32512, the maximum of one sequence per 3 bytes; the shape of the literal-length, match-length
 and offset code sets that feed the FSE table builder: only code 0 / a single code / two / many; literals raw or Huffman
-over one, two or many symbols); the harness materialises each class as a concrete valid parse -- the block's bytes are
+over one, two or many symbols; and code histograms "k codes used c times each, plus one used once" for which the
+specification computes the accuracy log the table builder picks, reaching the clamp of every field); the harness materialises each class as a concrete valid parse -- the block's bytes are
 synthesised from the plan, so every match is true by construction -- and drives the real compressor through the public
 Matcher trait.  ALL valid parses (match length >= 3, any offset incl. overlapping) of all binary blocks of 3..7 bytes
 after histories of 0 / 3 / 5 bytes are run as well, and a sample of them is judged by TLC with Matcher!SeqsOk (minimum
@@ -39,6 +40,9 @@ def check(ctx):
     ctx.add_samples(cj["samples"][:1], 1)
     if cj["classes_run"] < 100:
         raise ToolError("vacuous parse classes")
+    # code histograms that drive the FSE table builder into every accuracy-log regime (incl. the clamps)
+    from .c12 import hist_classes
+    hist_classes(ctx)
     rows = ctx.path("tiny_parse_rows.ndjson")
     rep = ctx.path("c16tiny.json")
     vh(ctx, ["c16tiny", ctx.seed, ctx.tier, rows, rep], timeout=7200)
